@@ -436,7 +436,8 @@ class Sim(object):
             # deterministic stand-in for a hang: refuse meshes that cannot
             # be built within the plane budget (C05 decides those)
             if not (rx.req_dz > 0):
-                raise BudgetExceeded('reactor.py:_setup_zpts (zero step)')
+                raise BudgetExceeded('reactor.py:_setup_zpts (zero step: req_dz '
+                                     'is not a positive number)')
             if rx.core_length / rx.req_dz > sim.max_planes:
                 raise BudgetExceeded('reactor.py:_setup_zpts (plane cap of '
                                      'the harness, not a hang)')
